@@ -1,12 +1,132 @@
-"""replayer — search for a concrete failing input against the real crates for a
-failed obligation (Verus yields no model).  Filled in per unit; returns None when
-no executable self-consistency form exists for the obligation."""
+"""replayer — search for a concrete failing input against the real crates for a failed obligation.
+
+Verus yields no model.  For the tokenizer units the search runs the *real* tokenizer (built from
+/repo's working tree) over a corpus of short inputs that put a probe string into every tokenizer
+state, and looks for a self-inconsistency that witnesses a broken clause:
+  * chunked feed != whole feed                  (C03)
+  * exact_errors on != exact_errors off         (C08: slow path vs fast path)
+  * EOF line != 1 + number of line breaks       (C09)
+A violation of the WHATWG transition function itself has no such executable form; then the replay
+file only names the obligation (VIOLATION line ends with no-failing-input-found).
+"""
+import os
+import re
+import subprocess
+import tempfile
+
+VERIF = os.path.dirname(os.path.dirname(os.path.abspath(__file__)))
+TARGET = os.environ.get('VERIF_REPLAY_TARGET', '/var/tmp/verif-replay-target')
+
+PROBES = ['', '\\n', '\\r', '\\r\\n', '\\r\\r', '\\n\\n', '\\0', '&', '<', '>', '-', '"', "'", '=', '/', ' ', '\\t',
+          'A', '\\u{feff}', '\\u{e9}', '\\n\\r\\n', ']', '!', '\\r\\n\\n', '\\r\\n\\r\\n', '\\r\\r\\n']
+
+HTML_CONTEXTS = [
+    'x{P}y', '{P}x', 'x{P}',
+    '<a{P}b>', '<a {P}b=c>', '<a b{P}c=d>', '<a b {P}=c>', '<a b={P}c>', '<a b={P}"c">', "<a b={P}'c'>",
+    '<a b="c{P}d">', "<a b='c{P}d'>", '<a b=c{P}d>', '<a b="c"{P}d>', '<a /{P}>', '<a b="c" b="d"{P}>x',
+    '</a{P}>x', '<{P}a>', '</{P}a>',
+    '<!--{P}-->x', '<!--a{P}b-->x', '<!-{P}x', '<!---{P}x-->', '<!--a-{P}b-->', '<!--a--{P}b-->', '<!--a--!{P}b-->',
+    '<!--a<{P}b-->', '<!--a<!{P}b-->', '<!--a<!-{P}b-->', '<!--a<!--{P}b-->', '<?{P}x>y', '</ {P}x>y',
+    '<!DOCTYPE{P}html>x', '<!DOCTYPE {P}html>x', '<!DOCTYPE h{P}tml>x', '<!DOCTYPE html{P}PUBLIC "x">y',
+    '<!DOCTYPE html {P}>y', '<!DOCTYPE html {P}PUBLIC "x">y', '<!DOCTYPE html PU{P}BLIC "x">y',
+    '<!DOCTYPE html PUBLIC{P}"x">y', '<!DOCTYPE html PUBLIC {P}"x">y', '<!DOCTYPE html PUBLIC "x{P}y">z',
+    "<!DOCTYPE html PUBLIC 'x{P}y'>z", '<!DOCTYPE html PUBLIC "x"{P}"y">z', '<!DOCTYPE html PUBLIC "x" {P}"y">z',
+    '<!DOCTYPE html SYSTEM "y"{P}>z', '<!DOCTYPE html SYS{P}TEM "y">z', '<!DOCTYPE html x{P}y>z',
+    '<!{P}--x-->y', '<!-{P}-x-->y', '<!do{P}ctype html>y', '<!doctype{P} html>y', '<![CDA{P}TA[x]]>y', '<!{P}x>y',
+    '&{P}x', '&am{P}p;x', '&amp{P}x', '&amp;{P}x', '&#{P}65;x', '&#x{P}41;x', '&#6{P}5;x', '&#65{P}x', '&no{P}tit;x',
+    '<a b="&am{P}p;c">', '<a b=&am{P}p;c>', '<a b="&amp{P}=c">',
+    'raw=rcdata;last=title;x{P}y</title>z', 'raw=rcdata;last=title;x</ti{P}tle>z', 'raw=rcdata;last=title;x</title{P}>z',
+    'raw=rcdata;last=title;x<{P}/title>z', 'raw=rcdata;last=title;x&am{P}p;</title>z',
+    'raw=rawtext;last=style;x{P}y</style>z', 'raw=rawtext;last=style;x</sty{P}le >z',
+    'raw=script;last=script;x{P}y</script>z', 'raw=script;last=script;<!--{P}x--></script>z',
+    'raw=script;last=script;<!--<script>{P}</script>x--></script>z', 'raw=script;last=script;<!--<scr{P}ipt>y</script>x--></script>z',
+    'raw=script;last=script;<!--x-{P}y--></script>z', 'raw=script;last=script;<!--x--{P}y></script>z',
+    'raw=script;last=script;<!--<script>x-{P}y</script>--></script>z', 'raw=script;last=script;<!--<script>x--{P}y</script>--></script>z',
+    'raw=script;last=script;<!--<script>x<{P}/script>--></script>z', 'raw=script;last=script;<!{P}--x--></script>z',
+    'raw=plaintext;x{P}y<z>',
+]
+
+
+def corpus(contexts):
+    out = []
+    for c in contexts:
+        for p in PROBES:
+            out.append(c.replace('{P}', p))
+    return out
+
+
+def build_tool(bin_name):
+    env = dict(os.environ, CARGO_TARGET_DIR=TARGET, CARGO_NET_OFFLINE='true')
+    p = subprocess.run(['cargo', 'build', '--offline', '--quiet', '--bin', bin_name], cwd=os.path.join(VERIF, 'replay'),
+                       env=env, capture_output=True, text=True)
+    if p.returncode != 0:
+        return None, p.stderr[-2000:]
+    return os.path.join(TARGET, 'debug', bin_name), ''
+
+
+def run_selfcheck(tool, inputs):
+    with tempfile.NamedTemporaryFile('w', suffix='.txt', delete=False) as f:
+        f.write('\n'.join(inputs) + '\n')
+        path = f.name
+    try:
+        p = subprocess.run([tool, '--selfcheck', path], capture_output=True, text=True, timeout=600)
+    finally:
+        os.unlink(path)
+    return p.stdout
 
 
 def search(prop, unit, rec):
-    return None
+    if unit not in ('u_htok', 'u_xtok'):
+        return None
+    bin_name = 'htok' if unit == 'u_htok' else 'xtok'
+    tool, err = build_tool(bin_name)
+    if tool is None:
+        return None
+    inputs = corpus(HTML_CONTEXTS if unit == 'u_htok' else XML_CONTEXTS)
+    out = run_selfcheck(tool, inputs)
+    m = re.search(r'INCONSISTENT kind=(\S+) input=(".*?")( split_at=(\d+))?.*?\n((?:  .*\n?)+)', out)
+    if not m:
+        return None
+    return dict(tool='replay/src/bin/%s.rs --selfcheck' % bin_name, kind=m.group(1), input=m.group(2),
+                split_at=int(m.group(4)) if m.group(4) else None, observed=m.group(5).strip().split('\n'),
+                raw=out.strip()[:4000])
+
+
+def fallback(prop, unit):
+    """Bounded stand-in, used ONLY when the verifier could not decide the unit (construct outside the accepted
+    subset, lost anchor, resource limit): run the real code over a stated finite space and report a concrete
+    failing input if there is one.  Returns (concrete-or-None, description-of-bound)."""
+    if unit == 'u_bq':
+        tool, err = build_tool('bqcheck')
+        if tool is None:
+            return None, 'bqcheck did not build: ' + err[-300:]
+        p = subprocess.run([tool], capture_output=True, text=True, timeout=900)
+        bound = '<=3 buffers, <=4 chars over {a,B,-,e-acute}, 6 patterns, ops next/peek/pop_except_from/eat'
+        m = re.search(r'MISMATCH (.*)', p.stdout)
+        if m:
+            return dict(tool='replay/src/bin/bqcheck.rs', kind='bounded-model-mismatch', input=m.group(1), raw=p.stdout[-2000:]), bound
+        return None, bound + ' :: ' + p.stdout.strip()[-200:]
+    if unit in ('u_htok', 'u_xtok'):
+        conc = search(prop, unit, {})
+        return conc, 'self-consistency sweep over %d short inputs x all 2-chunkings x exact_errors' % len(corpus(HTML_CONTEXTS if unit == 'u_htok' else XML_CONTEXTS))
+    return None, ''
+
+
+XML_CONTEXTS = [
+    'x{P}y', '<a{P}b/>', '<a {P}b="c"/>', '<a b="c{P}d"/>', "<a b='c{P}d'/>", '<a b=c{P}d/>', '<a>x{P}y</a>',
+    '<!--a{P}b-->x', '<?pi a{P}b?>x', '<![CDATA[a{P}b]]>x', '<!DOCTYPE a{P}b>x', '<!DOCTYPE x{P}PUBLIC "p">y', '<!DOC{P}TYPE x>y',
+    '&am{P}p;x', '&a{P}b', '&#{P}65;x', '&#x{P}41;x', '<a b="&am{P}p;"/>', '<a>&a{P}b</a>', '</a{P}>x', '{P}<a/>',
+]
 
 
 def rerun(conc):
-    print('no concrete replay implemented for this obligation')
-    return 1
+    bin_name = 'xtok' if 'xtok' in conc.get('tool', '') else 'htok'
+    tool, err = build_tool(bin_name)
+    if tool is None:
+        print('cannot build the replay tool:', err)
+        return 2
+    inp = conc['input']
+    body = inp[1:-1] if inp.startswith('"') else inp
+    out = run_selfcheck(tool, [body.replace('\\\\', '\\')])
+    print(out)
+    return 1 if 'INCONSISTENT' in out else 0
